@@ -269,7 +269,9 @@ def no_recast(ctx: Ctx):
                 if not isinstance(st, ast.Assign):
                     continue
                 tg = {n.id for t in st.targets for n in ast.walk(t) if isinstance(n, ast.Name)}
-                reads = {n.id for n in ast.walk(st.value) if isinstance(n, ast.Name)}
+                # what is only asked for its context (dtype / device) hands on no values
+                in_ctx = {id(n) for c_ in ast.walk(st.value) if isinstance(c_, ast.Call) and call_name(c_) == "context" for n in ast.walk(c_)}
+                reads = {n.id for n in ast.walk(st.value) if isinstance(n, ast.Name) and id(n) not in in_ctx}
                 from_svd = any(isinstance(c, ast.Call) and call_name(c) in ("svd_interface", "truncated_svd", "svd") for c in ast.walk(st.value)) or bool(reads & svd_names)
                 if from_svd and not tg <= svd_names:
                     svd_names |= tg
